@@ -86,8 +86,10 @@ class Gen5(PG.Gen):
     def stmt(self, ind):
         r = self.rng
         pad = "  " * ind
-        if self.chance(0.20):
-            k = r.randrange(7)
+        if self.chance(0.24):
+            k = r.randrange(9)
+            if k >= 7:
+                return self.shadow_capture(ind)
             if k == 0:
                 self.f("closure-let")
                 lit = self.closure_lit(ind)
@@ -151,6 +153,66 @@ class Gen5(PG.Gen):
                 return "for (%s, %s) in [%s] %s" % (a, b, items, self.render_block(body, ind))
         return super().stmt(ind)
 
+    def shadow_capture(self, ind):
+        """A closure created INSIDE 1-3 nested blocks that captures a name bound in more than one
+        enclosing block of the same frame (shadowing `let`, loop variable, match binder), called in
+        place, exported through a variable declared outside and called after the outer variable was
+        assigned. The innermost binding at creation time is the one the closure sees."""
+        r = self.rng
+        self.f("closure-shadow-capture")
+        s_, h, c, p, i = self.fresh("s"), self.fresh("h"), self.fresh("c"), self.fresh("p"), self.fresh("i")
+        depth = r.randrange(1, 4)
+        kinds = [r.choice(["if", "for", "match", "while", "iflet"]) for _ in range(depth)]
+        if all(k == "while" for k in kinds):          # a `while` binds nothing: make sure one level shadows
+            kinds[-1] = r.choice(["for", "match", "iflet"])
+        self.f("shadow-depth-%d" % depth)
+        pad = "  " * ind
+        lines = ["let %s = %s" % (s_, self.expr(INT, 2)), pad + "let %s = fun(%s) { %s }" % (h, p, p)]
+        self.declare(s_, INT)
+        self.declare(h, FN)
+        open_, close_ = [], []
+        for d, kd in enumerate(kinds):
+            ip = "  " * (ind + d)
+            ip1 = "  " * (ind + d + 1)
+            if kd == "if":
+                open_.append(ip + "if %s >= 0 - 1000 {" % s_)
+                open_.append(ip1 + "let %s = %s * 10 + %d" % (s_, s_, r.randrange(1, 9)))
+                close_.append(ip + "}")
+            elif kd == "iflet":
+                open_.append(ip + "if True {")
+                open_.append(ip1 + "let %s = %d" % (s_, r.randrange(20, 90)))
+                close_.append(ip + "} else {\n" + ip1 + "println(\"e\")\n" + ip + "}")
+            elif kd == "for":
+                open_.append(ip + "for %s in [%s + %d, %d] {" % (s_, s_, r.randrange(1, 9), r.randrange(100, 200)))
+                close_.append(ip + "}")
+            elif kd == "match":
+                open_.append(ip + "match Some(%s + %d) {" % (s_, r.randrange(1, 9)))
+                open_.append(ip1 + "Some(%s) => {" % s_)
+                close_.append(ip1 + "}\n" + ip1 + "None => { println(\"n\") }\n" + ip + "}")
+            else:
+                wi = "%s_%d" % (i, d)
+                open_.append(ip + "let %s = 0" % wi)
+                open_.append(ip + "while %s < 2 {" % wi)
+                open_.append(ip1 + "%s += 1" % wi)
+                open_.append(ip1 + "let %s = %s + %s" % (s_, s_, wi))
+                close_.append(ip + "}")
+        ipi = "  " * (ind + depth) + ("  " if kinds[-1] == "match" else "")
+        body = r.choice(["%s + %s" % (p, s_), "%s * 100 + %s" % (s_, p), "%s = %s + %s\n%s  %s" % (s_, s_, p, ipi, s_)])
+        inner = [ipi + "let %s = fun(%s) {\n%s  %s\n%s}" % (c, p, ipi, body, ipi),
+                 ipi + "println(string_repr(%s(1)))" % c,
+                 ipi + "%s = %s" % (h, c)]
+        if r.random() < 0.5:
+            inner.append(ipi + "%s = %s + 1000" % (s_, s_))
+            inner.append(ipi + "println(string_repr((%s(2), %s)))" % (c, s_))
+        # the match arm body is one level deeper than the `match` line
+        fixed_open = []
+        for l in open_:
+            fixed_open.append(l)
+        text = lines + fixed_open + inner + list(reversed(close_))
+        text.append(pad + "%s = %s + 100" % (s_, s_))
+        text.append(pad + "println(string_repr((%s(3), %s)))" % (h, s_))
+        return "\n".join([text[0]] + text[1:])
+
     def fun_def(self):
         # parameters that shadow toplevel names / other functions' parameters
         src = super().fun_def()
@@ -206,6 +268,15 @@ def templates(rng):
                 "let x = %d\nfun f(x) { let x = x + 1  if x > %d { let x = x * 2  return x }  x }\nlet g = fun(x) { let y = x  x = x + 1  y + x }\n"
                 "if x < %d { let x = 50  println(string_repr(x)) }\nprintln(string_repr([f(x), g(x), x]))\nfor x in [x, x + 1] { let x = x * 3  println(string_repr(x)) }\nprintln(string_repr(x))\n"
                 % (a, b, c)))
+    out.append(("closure-shadow-capture",
+                "fun make_adder(n) {\n  if n + %d > 0 {\n    let n = n * 10\n    return fun(x) { x + n }\n  }\n  fun(x) { x }\n}\n"
+                "fun pick(n, xs) {\n  let keep = fun(x) { x }\n  for n in xs {\n    match Some(n + 1) {\n      Some(n) => {\n"
+                "        if n > %d { keep = fun(x) { x * 1000 + n } }\n      }\n      None => { println(\"none\") }\n    }\n  }\n  keep(n)\n}\n"
+                "let add = make_adder(%d)\nprintln(string_repr(add(1)))\nlet total = %d\nlet last = fun() { 0 - 1 }\n"
+                "for total in [%d, %d] {\n  let f = fun() { total }\n  println(string_repr(f()))\n  last = f\n}\ntotal = total + 50\n"
+                "println(string_repr((last(), total, pick(%d, [%d, %d, %d]))))\n"
+                "let k = %d\nlet g = fun(x) { x * k }\nprintln(string_repr(g(3)))\n"
+                % (a + 1, b, c + 1, a, b + 5, c + 6, m, a, b, c, m)))
     out.append(("user-enum",
                 ENUM_DECL + "fun area(s) {\n  match s {\n    Pair((w, h)) => { w * h }\n    Circle(r) => { 3 * r * r }\n    Dot => { 0 }\n  }\n}\n"
                 "for s in [Dot, Circle(%d), Pair((%d, %d))] { println(string_repr((s, area(s)))) }\n"
@@ -468,10 +539,11 @@ def run(ctx):
     ctx.rule = ("type-directed random core programs (G-prog extended with stored / returned / capturing closures, "
                 "assignments to captured variables, user enums with tuple payloads, an exit statement directly followed by "
                 "another loop, tuple destructuring; sizes 10-60, loops bounded by construction, early exits weighted up) + "
-                "13 structured template families with random parameters (recursion, functions calling functions, returned "
+                "14 structured template families with random parameters (recursion, functions calling functions, returned "
                 "closures, counters, closures in loops, return inside nested loops inside a function, evaluation order of "
                 "arguments / items / operands, for index, continue re-evaluating the condition, nested loops with exits at "
-                "every level, break followed by a loop, shadowing across function boundaries, user enums) + a malformed stream "
+                "every level, break followed by a loop, shadowing across function boundaries, closures created inside nested "
+                "blocks capturing names bound in several enclosing blocks, user enums) + a malformed stream "
                 "(29 ill-formed families + random programs with 15% injected errors). Each program: real parser tree -> "
                 "big-step reference / model machine (Lean), hook evaluator, and `garden run` (CLI). Non-trivial = the program "
                 "has a loop, an early exit, a call of a user function or closure, or a match, and runs on all three. "
